@@ -118,8 +118,10 @@ class Rec:
         d = digest(case if key is None else key)
         if d not in self.digests:
             self.digests.add(d)
-            if len(self.samples) < self.MAX_SAMPLES:
+            n = len(self.digests)
+            if n & (n - 1) == 0:  # 1st, 2nd, 4th, 8th ... distinct non-trivial case
                 self.samples.append(json.loads(json.dumps(case, default=str)))
+                del self.samples[: -self.MAX_SAMPLES]
 
     def export(self):
         return {
@@ -586,7 +588,7 @@ def write_evidence(pmod, tier, seed, results, wall, violations, replayed):
         s["shards"] += 1
         s["wall_s"] = round(s["wall_s"] + r.get("wall", 0.0), 2)
         if len(s["samples"]) < 2:
-            s["samples"].extend(rec["samples"][:1])
+            s["samples"].extend(rec["samples"][-1:])
         evaluations += rec["evaluations"]
         digests.update(r["sub"] + ":" + d for d in rec["digests"])
     subs_by_name = {s.name: s for s in pmod.SUBS}
